@@ -39,7 +39,7 @@ func init() {
 		Replay: replayC19,
 		Floors: func(string) map[string]int {
 			m := map[string]int{}
-			for _, f := range []string{"type", "enum", "not", "oneOf", "anyOf", "allOf", "nullable", "format", "minimum", "maximum", "exclusiveMinimum", "exclusiveMaximum",
+			for _, f := range []string{"type", "enum", "oneOf", "anyOf", "allOf", "nullable", "format", "minimum", "maximum", "exclusiveMinimum", "exclusiveMaximum",
 				"multipleOf", "minLength", "maxLength", "pattern", "minItems", "maxItems", "uniqueItems", "minProperties", "maxProperties", "properties", "required", "discriminator"} {
 				m["reason_inspected/"+f] = 20
 			}
